@@ -62,10 +62,30 @@ K_CR = "C12/carriage-return-in-text-normalised"
 K_AVSTRIP = "C12/attribute-value-mixed-content-text-stripped"
 K_AVREORDER = "C12/attribute-value-xmlns-attr-reordered"
 K_CTORDEFAULT = "C12/constructor-default-attribute-restored-on-parse"
+# the (class, attribute) pairs the known finding C12/constructor-default-attribute-restored-on-parse was recorded for;
+# a constructor default anywhere else is NOT covered by it (Lean: C12_ctor_defaults_recorded)
+RECORDED_CTOR_DEFAULTS = {
+    ("saml2.extension.shibmd", "Scope", "regexp"), ("saml2.extension.shibmd", "KeyAuthority", "VerifyDepth"),
+    ("saml2.extension.pefim", "SPCertEnc", "VerifyDepth"), ("saml2.extension.pefim", "SPCertEncType_", "VerifyDepth"),
+    ("saml2.ws.wsaddr", "RelatesTo", "RelationshipType"), ("saml2.ws.wsaddr", "RelatesToType_", "RelationshipType"),
+    ("saml2.ws.wspol", "PolicyReference", "DigestAlgorithm"),
+}
 K_AVTYPEONLY = "C12/attribute-value-type-without-text"
 K_CTORMEMBER = "C12/constructor-omits-declared-member"
 
 _S = {}
+
+from xml.etree import ElementTree as _ET  # noqa: E402
+
+# ElementTree keeps registered prefixes in a module-level table that SamlBase.register_prefix (to_string(nspair))
+# writes to.  Every case starts from the table as it was when this module was imported (reproducible runs);
+# inside a "history" case nothing is reset between the steps.
+_PRISTINE_NSMAP = dict(_ET._namespace_map)
+
+
+def reset_prefix_table():
+    _ET._namespace_map.clear()
+    _ET._namespace_map.update(_PRISTINE_NSMAP)
 
 
 def setup():
@@ -895,6 +915,176 @@ def attr_namespace_cases(rng, tier):
                 yield mk_rt(inst, "attr-ns")
 
 
+def ctor_default_cases(rng):
+    """Derived from the code on every run (translator: attribute members of a fresh `cls()`): every class whose
+    constructor gives a declared attribute a default, with that attribute explicitly None — alone and nested.
+    Only the recorded pairs are a known finding."""
+    tbl = T()
+    holders = {}
+    for cd in tbl:
+        for j, ch in enumerate(cd["children"]):
+            if ch[3] is not None:
+                holders.setdefault(ch[3], []).append((cd["id"], j))
+    for cd in tbl:
+        dflt = {k for k, _ in cd["defaults"]}
+        for j, ((xml, _m), init) in enumerate(zip(cd["attrs"], cd["init"])):
+            if init is None or xml in dflt:
+                continue
+            inst = _blank(cd["id"])
+            for k, (a, v) in enumerate(zip(cd["attrs"], cd["init"])):
+                inst["a"][k] = v if k != j else None
+                if a[0] in dflt and inst["a"][k] is None:
+                    inst["a"][k] = "set"
+            yield mk_rt(inst, "ctor-default")
+            for hid, slot in holders.get(cd["id"], [])[:2]:
+                outer = gen_inst(rng, hid, 0, {})
+                outer["s"][slot] = [inst]
+                yield mk_rt(outer, "ctor-default")
+            # and a document that omits the attribute
+            yield mk_parse(cd["id"], {"q": class_tag(cd), "a": [], "t": None, "k": []}, rng, style={})
+
+
+# ------------------------------------------------------------------ serialisation forms and histories
+
+PFX_OK = ["saml", "samlp", "md", "ds", "xenc", "a", "b", "p-1", "q.r", "_u", "saml2p", "SAML", "x1"]
+PFX_RESERVED_FORM = ["ns0", "ns1", "ns2", "ns3", "ns12"]
+
+
+def inst_namespaces(inst, acc=None):
+    """Namespace URIs of element and attribute names of the instance (root first)."""
+    acc = acc if acc is not None else []
+
+    def add(ns):
+        if ns and ns not in acc:
+            acc.append(ns)
+
+    def ext(e):
+        add(e["ns"])
+        for k, _ in e["a"]:
+            if k.startswith("{"):
+                add(k[1:].split("}", 1)[0])
+        for c in e["k"]:
+            ext(c)
+
+    cd = T()[inst["c"]]
+    add(cd["ns"])
+    for (xml, _m), v in zip(cd["attrs"], inst["a"]):
+        if v is not None and xml.startswith("{"):
+            add(xml[1:].split("}", 1)[0])
+    for k, _ in inst["ea"]:
+        if k.startswith("{"):
+            add(k[1:].split("}", 1)[0])
+    for s_ in inst["s"]:
+        for k in s_:
+            inst_namespaces(k, acc)
+    for e in inst["ee"]:
+        ext(e)
+    return acc
+
+
+def gen_nspair(rng, nss, kind, registered):
+    """A prefix map for to_string(nspair).  Prefixes are NCNames not starting with xml and not xs/xsd/xsi
+    (AttributeValue carries a literal xmlns:xs); URIs are never the xml / xmlns namespace names."""
+    nss = [u for u in nss if u not in (XMLNS, "http://www.w3.org/2000/xmlns/")] or ["urn:unused"]
+    if kind == "ordinary":
+        ps = rng.sample(PFX_OK, min(len(PFX_OK), rng.randint(1, len(nss))))
+        return dict(zip(ps, rng.sample(nss, len(ps))))
+    if kind == "unrelated":
+        return {rng.choice(PFX_OK): "urn:not:used:%d" % rng.randrange(5)}
+    if kind == "colliding":
+        # a prefix some earlier step (or ElementTree itself: html, rdf, wsdl, dc) registered for another URI
+        pool = [p for p in registered if p not in ("xml", "xs", "xsd", "xsi")] + ["html", "rdf", "wsdl", "dc"]
+        return {rng.choice(pool): rng.choice(nss)}
+    if kind == "reserved":
+        return {rng.choice(PFX_RESERVED_FORM): rng.choice(nss)}
+    if kind == "reserved-next":
+        # the prefix ElementTree itself would generate for the NEXT (resp. previous) namespace it meets
+        j = rng.randrange(len(nss))
+        return {"ns%d" % (j + rng.choice([1, 1, -1]) if j else 1): nss[j]}
+    if kind == "empty":
+        return {"": rng.choice(nss)}
+    if kind == "two-for-one":
+        u = rng.choice(nss)
+        return {rng.choice(PFX_OK[:6]): u, rng.choice(PFX_OK[6:]): u}
+    return None
+
+
+NSPAIR_KINDS = ["ordinary", "ordinary", "unrelated", "colliding", "reserved", "reserved-next", "reserved-next", "two-for-one"]
+
+
+def empty_prefix_safe(inst, uri):
+    """to_string({"": uri}) makes `uri` the DEFAULT namespace of the document (and of every later document of
+    the process): an element in no namespace or an attribute qualified with `uri` would then be read back under
+    another name.  Not pysaml2's doing beyond passing "" on; such combinations are kept out (stated assumption),
+    and the empty prefix is only used as the last step of a history."""
+    def ext_ok(e):
+        return e["ns"] is not None and not any(k.startswith("{%s}" % uri) for k, _ in e["a"]) and all(ext_ok(c) for c in e["k"])
+
+    cd = T()[inst["c"]]
+    if any(v is not None and xml.startswith("{%s}" % uri) for (xml, _m), v in zip(cd["attrs"], inst["a"])):
+        return False
+    if any(k.startswith("{%s}" % uri) for k, _ in inst["ea"]) or not all(ext_ok(e) for e in inst["ee"]):
+        return False
+    return all(empty_prefix_safe(k, uri) for s_ in inst["s"] for k in s_)
+
+
+def mixed_inst(rng, cid, depth=2):
+    """A clean instance that mixes at least two namespaces (a foreign extension element is added)."""
+    inst = gen_inst(rng, cid, depth, {"rich": True})
+    if T()[cid]["kind"] == "plain" and not any(e["ns"] for e in inst["ee"]):
+        inst["ee"] = inst["ee"] + [{"ns": rng.choice(["urn:x", "http://example.org/ext"]), "tag": "hint",
+                                    "a": [["a", "b"]], "k": [], "t": "t"}]
+    return inst
+
+
+def mk_history(steps, note=None):
+    texts = []
+    for st in steps:
+        av_texts_inst(st["inst"], texts)
+    c = {"op": "history", "steps": steps, "conv": conv_table(texts)}
+    if note:
+        c["note"] = note
+    return c
+
+
+def history_cases(rng, tier):
+    """(a) every class through every public serialisation form: to_string(), to_string(nspair) with ordinary /
+    unrelated / colliding / reserved-form (ns<digits>) / empty prefixes, str(), element_to_extension_element;
+    (b) random histories: several objects of different classes serialised and parsed one after the other in one
+    process with different prefix maps — each step judged alone with the unchanged specification."""
+    tbl = T()
+    allc = [cd["id"] for cd in tbl]
+    multi = [cd["id"] for cd in tbl if any(ch[3] is not None and tbl[ch[3]]["ns"] != cd["ns"] for ch in cd["children"])]
+    for cd in tbl:
+        a = mixed_inst(rng, cd["id"], 1)
+        nss = inst_namespaces(a)
+        b = mixed_inst(rng, rng.choice(multi), 1)
+        yield mk_history([
+            {"inst": a, "form": "to_string", "nspair": gen_nspair(rng, nss, "reserved-next", [])},
+            {"inst": a, "form": "to_string", "nspair": gen_nspair(rng, nss, "ordinary", [])},
+            {"inst": b, "form": "to_string", "nspair": None},
+            {"inst": a, "form": "ext", "nspair": None},
+            {"inst": a, "form": "str", "nspair": None},
+            {"inst": a, "form": "to_string", "nspair": gen_nspair(rng, nss, rng.choice(NSPAIR_KINDS), PFX_OK[:3])},
+            {"inst": b, "form": "to_string", "nspair": None},
+        ] + ([{"inst": a, "form": "to_string", "nspair": {"": nss[0]}}] if nss[0] != XMLNS and empty_prefix_safe(a, nss[0]) else []), "forms")
+    for _ in range(250 if tier == "quick" else 2500):
+        steps, registered = [], []
+        for _k in range(rng.randint(3, 8)):
+            inst = mixed_inst(rng, rng.choice(multi if rng.random() < 0.6 else allc), rng.choice([1, 2]))
+            form = rng.choice(["to_string", "to_string", "to_string", "str", "ext"])
+            nspair = None
+            if form == "to_string" and rng.random() < 0.6:
+                nspair = gen_nspair(rng, inst_namespaces(inst), rng.choice(NSPAIR_KINDS), registered)
+                registered += [p for p in (nspair or {}) if p]
+            steps.append({"inst": inst, "form": form, "nspair": nspair})
+        last = steps[-1]["inst"]
+        u = rng.choice(inst_namespaces(last))
+        if rng.random() < 0.5 and u != XMLNS and empty_prefix_safe(last, u):
+            steps.append({"inst": last, "form": "to_string", "nspair": {"": u}})
+        yield mk_history(steps, "history")
+
+
 _XSD = {}
 
 
@@ -982,6 +1172,10 @@ def gen_cases(rng, tier):
     for c in attr_namespace_cases(rng, tier):
         yield c
     for c in xsd_order_cases(rng, tier):
+        yield c
+    for c in ctor_default_cases(rng):
+        yield c
+    for c in history_cases(rng, tier):
         yield c
     per_rt = 10 if tier == "quick" else 80
     per_parse = 5 if tier == "quick" else 40
@@ -1125,35 +1319,55 @@ def search_cases(rng, broken, build_log):
 # ------------------------------------------------------------------ implementation side
 
 
+def run_step(inst, form, nspair):
+    """Serialise the instance through one public form, parse it back, reflect, serialise again."""
+    import saml2
+    from xml.etree import ElementTree
+
+    obj = build(inst)
+    cid = inst["c"]
+
+    def ser(o):
+        if form == "ext":
+            return saml2.element_to_extension_element(o).to_string()
+        if form == "to_string":
+            return o.to_string(nspair) if nspair is not None else o.to_string()
+        return str(o)
+
+    try:
+        s = ser(obj)
+        if isinstance(s, bytes):
+            s = s.decode("utf-8")
+        p = parse_with(cid, s)
+        # second serialisation: plain for the to_string/str forms, the same form for the extension-element form
+        s2 = None if p is None else (ser(p) if form == "ext" else p.to_string())
+        if isinstance(s2, bytes):
+            s2 = s2.decode("utf-8")
+    except Exception as e:  # whatever the real code raises here is the observable "raised"
+        return {"r": "raised", "exc": type(e).__name__}
+    if p is None:
+        return {"r": "raised", "exc": "None"}
+    try:
+        o = reflect(p, cid)
+    except Unusable as e:
+        return {"r": "raised", "exc": "Unusable: %s" % e}
+    # the order of the root's children in the written document, read with the plain parser
+    # (independent of pysaml2's object model)
+    order = [list(classtable.split_clark(ch.tag)) for ch in ElementTree.fromstring(s.encode("utf-8"))]
+    return {"r": "obj", "o": o, "same": s2 == s, "order": order}
+
+
 def run_impl(case):
     if "cls" not in _S:
         setup()
     from defusedxml.common import DefusedXmlException
 
+    reset_prefix_table()
     if case["op"] == "rt":
-        inst = case["inst"]
-        obj = build(inst)
-        cid = inst["c"]
-        try:
-            s = obj.to_string()
-            if isinstance(s, bytes):
-                s = s.decode("utf-8")
-            p = parse_with(cid, s)
-            s2 = None if p is None else str(p)
-        except Exception as e:  # whatever the real code raises here is the observable "raised"
-            return {"r": "raised", "exc": type(e).__name__}
-        if p is None:
-            return {"r": "raised", "exc": "None"}
-        try:
-            o = reflect(p, cid)
-        except Unusable as e:
-            return {"r": "raised", "exc": "Unusable: %s" % e}
-        # the order of the root's children in the written document, read with the plain parser
-        # (independent of pysaml2's object model)
-        from xml.etree import ElementTree
-
-        order = [list(classtable.split_clark(ch.tag)) for ch in ElementTree.fromstring(s.encode("utf-8"))]
-        return {"r": "obj", "o": o, "same": s2 == s, "order": order}
+        return run_step(case["inst"], "str", None)
+    if case["op"] == "history":
+        # nothing is reset between the steps: module-level state left by one step is met by the next
+        return {"steps": [run_step(st["inst"], st["form"], st["nspair"]) for st in case["steps"]]}
     if case["op"] == "xsdorder":
         from xml.etree import ElementTree
 
@@ -1188,12 +1402,23 @@ def run_impl(case):
 def compare(case, impl, model):
     if model is None:
         return False
+    if "steps" in impl:
+        if not isinstance(model, dict) or len(model.get("steps", [])) != len(impl["steps"]):
+            return False
+        for cst, ist, mst in zip(case["steps"], impl["steps"], model["steps"]):
+            # the extension-element form writes the extension children first by construction: its child order is
+            # outside the comparison (and outside specRoundTripExt)
+            drop = ("exc", "order") if cst["form"] == "ext" else ("exc",)
+            if {k: v for k, v in ist.items() if k not in drop} != {k: v for k, v in mst.items() if k not in drop}:
+                return False
+        return True
     i = {k: v for k, v in impl.items() if k != "exc"}
     return i == model
 
 
 def nontrivial(case, impl, lean):
-    return (lean.get("model") or {}).get("r") == "obj"
+    m = lean.get("model") or {}
+    return m.get("r") == "obj" or bool(m.get("steps"))
 
 
 # ------------------------------------------------------------------ classification of failing inputs
@@ -1231,7 +1456,7 @@ def _diff(a, b, out):
             if x is None and xml in dflt and y == dflt[xml]:
                 out.append("nf")
             elif x is None and xml not in dflt and init is not None and y == init:
-                out.append("ctor")
+                out.append("ctor" if (cd["module"], cd["name"], xml) in RECORDED_CTOR_DEFAULTS else "other")
             else:
                 out.append("other")
     is_av = cd["kind"] == "attrValue"
@@ -1291,6 +1516,19 @@ def finding_key(case, impl, lean):
 
 
 def shrink(case):
+    if case["op"] == "history":
+        st = case["steps"]
+        for j in range(len(st)):
+            if len(st) > 1:
+                yield mk_history(st[:j] + st[j + 1:], case.get("note"))
+        for j in range(len(st)):
+            if st[j]["nspair"] and len(st[j]["nspair"]) > 1:
+                for k in st[j]["nspair"]:
+                    yield mk_history(st[:j] + [dict(st[j], nspair={k: st[j]["nspair"][k]})] + st[j + 1:], case.get("note"))
+            for v in shrink(mk_rt(st[j]["inst"])):
+                if v["op"] == "rt" and v["inst"]["c"] == st[j]["inst"]["c"]:
+                    yield mk_history(st[:j] + [dict(st[j], inst=v["inst"])] + st[j + 1:], case.get("note"))
+        return
     if case["op"] == "rt":
         inst = case["inst"]
 
@@ -1353,11 +1591,16 @@ def distribution(recs):
         d["ops"][c["op"]] = d["ops"].get(c["op"], 0) + 1
         if c["op"] == "rt":
             crt.add(c["inst"]["c"])
+        elif c["op"] == "history":
+            for st in c["steps"]:
+                key = "form:%s:%s" % (st["form"], "nspair" if st["nspair"] is not None else "plain")
+                d.setdefault("history_steps", {})
+                d["history_steps"][key] = d["history_steps"].get(key, 0) + 1
         elif c["op"] == "parse":
             cpa.add(c["cls"])
         else:
             d.setdefault("classes_xsdorder_set", set()).add(c["cls"])
-        k = c["op"] + ":" + str(r["impl"].get("r"))
+        k = c["op"] + ":" + str(r["impl"].get("r", "steps"))
         d["impl_outcomes"][k] = d["impl_outcomes"].get(k, 0) + 1
         if c.get("note"):
             d["notes"][c["note"]] = d["notes"].get(c["note"], 0) + 1
